@@ -7,6 +7,7 @@ import (
 	ipfslog "berty.tech/go-ipfs-log"
 	"berty.tech/go-orbit-db/iface"
 	"berty.tech/go-orbit-db/stores/operation"
+	"berty.tech/go-orbit-db/verifhook"
 )
 
 type kvIndex struct {
@@ -24,6 +25,7 @@ func (i *kvIndex) Get(key string) interface{} {
 func (i *kvIndex) UpdateIndex(oplog ipfslog.Log, _ []ipfslog.Entry) error {
 	entries := oplog.Values().Slice()
 	size := len(entries)
+	verifhook.At("index.read", i, oplog, size)
 
 	handled := map[string]struct{}{}
 
